@@ -284,6 +284,9 @@ def native_replay(pkg, items, scratch, attempts=1, timeout=600, gomaxprocs1=Fals
             if meta.get("kind") == "deadlock":
                 # a wedge shows natively as a run that never ends: do not wait the full replay timeout for each
                 tmo = min(timeout, 120)
+            if meta.get("kind") == "unwind":
+                # unwinding bound exceeded: does the real code terminate on these inputs at all?
+                tmo = min(timeout, 60)
         except (OSError, ValueError, IndexError):
             pass
         # schedule-dependent counterexamples are retried under several degrees of
@@ -506,7 +509,8 @@ def run_property(pid, tier, seed, cfg, scratch, t0):
                 ok = True
                 r = "not-replayed (listed schedule-dependent finding; native demonstration: %s)" % known_match(sig).get("native_demonstration")
             elif cfg.get("no_native_replay") or run.get("no_native"):
-                ok = True
+                # (an exceeded unwinding bound cannot be told from non-termination without a native run: stays inconclusive)
+                ok = v["kind"] != "unwind"
                 r = "not-replayed (the harness depends on engine-side stubs that have no native counterpart)"
             elif v["kind"] == "cover":
                 ok = r is not None and r.startswith("NEVER-COVERED")
@@ -522,6 +526,10 @@ def run_property(pid, tier, seed, cfg, scratch, t0):
                 ok = r.startswith("PANIC") or r.startswith("FAILED") or r.startswith("CRASH")
             elif v["kind"] == "deadlock":
                 ok = not r.startswith("PASSED")
+            elif v["kind"] == "unwind":
+                # only a native run that never ends makes "bound exceeded" a violation (non-termination);
+                # a run that ends means the bound was too small: inconclusive, as before
+                ok = r.startswith("TIMEOUT") or "test timed out" in r
             elif v["kind"] == "race":
                 # the Go race detector must report a race that involves one of the two source lines
                 locs = re.findall(r"@([\w./-]+:\d+)", v.get("detail") or "")
